@@ -27,18 +27,19 @@ type Profile struct {
 	MinSteps int
 	MaxSteps int
 	// sizes
-	NodeLo, NodeHi int64    // node capacity range per type
-	AskLo, AskHi   int64    // ask size range per type
-	GangProb       int      // percent of applications that are gang applications
-	ReqNodeProb    int      // percent of asks that require a node
-	PreemptProb    int      // percent of asks that may preempt others
-	OldAskProb     int      // percent of asks created one hour ago
-	BadQueueProb   int      // percent of applications submitted to a queue that does not exist
-	TagQuotaProb   int      // percent of applications carrying quota tags
-	Epilogue       bool     // drain everything at the end and demand exact zero
-	Warmup         bool     // start with two nodes and two applications
-	Reloads        bool     // Reload ops use mutated configurations
-	UserPool       []string // users to draw applications' owners from (default: all)
+	NodeLo, NodeHi   int64    // node capacity range per type
+	AskLo, AskHi     int64    // ask size range per type
+	GangProb         int      // percent of applications that are gang applications
+	ReqNodeProb      int      // percent of asks that require a node
+	PreemptProb      int      // percent of asks that may preempt others
+	OldAskProb       int      // percent of asks created one hour ago
+	BadQueueProb     int      // percent of applications submitted to a queue that does not exist
+	TagQuotaProb     int      // percent of applications carrying quota tags
+	Epilogue         bool     // drain everything at the end and demand exact zero
+	Warmup           bool     // start with two nodes and two applications
+	Reloads          bool     // Reload ops use mutated configurations
+	UserPool         []string // users to draw applications' owners from (default: all)
+	BoundReqNodeProb int      // percent of RM reported allocations that are daemon set pods (require their node)
 }
 
 // BaseWeights has every op enabled.
@@ -302,6 +303,9 @@ func (w *World) genKind(t *rapid.T, kind string, p *Profile) Op {
 			op.ReqNode = ""
 		}
 		op.Node = pick(t, "node", s.LiveNodes())
+		if s.Keys[op.Key] == nil && op.TaskGroup == "" && pct(t, "bound-daemonset", p.BoundReqNodeProb) {
+			op.ReqNode = op.Node // a daemon set pod that already runs on its node
+		}
 	case OpRelease:
 		keys := append(s.KeysIn(KBound), s.KeysIn(KOutstanding)...)
 		if Excluded("soft-timeout-empty-app") {
@@ -704,6 +708,11 @@ func (w *World) ExcludedShape(op Op) string {
 			}
 		}
 	case OpAddAsk, OpReportBound:
+		if op.Kind == OpReportBound && Excluded("preemption-shortfall-check") {
+			if n := w.Last.Nodes[op.Node]; n != nil && n.Available.Sub(op.Res).HasNegative() {
+				return "preemption-shortfall-check"
+			}
+		}
 		if Excluded("ask-for-completing-app") {
 			if sa := s.Apps[op.App]; sa != nil && len(sa.States) > 0 && sa.States[len(sa.States)-1] == "Completing" && s.Keys[op.Key] == nil {
 				return "ask-for-completing-app"
@@ -718,12 +727,81 @@ func (w *World) ExcludedShape(op Op) string {
 		if Excluded("reqnode-unschedulable") && w.nodeRequiredByOutstanding(op.Node) {
 			return "reqnode-unschedulable"
 		}
+	case OpUpdNode:
+		if Excluded("preemption-shortfall-check") {
+			if n := w.Last.Nodes[op.Node]; n != nil && op.Res.Sub(n.Allocated).Sub(n.Occupied).HasNegative() {
+				return "preemption-shortfall-check"
+			}
+		}
+	case OpUpdAsk:
+		if Excluded("preemption-shortfall-check") {
+			if k := s.Keys[op.Key]; k != nil && k.State == KBound {
+				if n := w.Last.Nodes[k.Node]; n != nil && n.Available.Add(k.Res).Sub(op.Res).HasNegative() {
+					return "preemption-shortfall-check"
+				}
+			}
+		}
 	case OpAddNode:
 		// a node that registers as draining while an outstanding ask already requires it cannot happen: ids are fresh
 	case OpForeign, OpForeignDel:
 		if Excluded("foreign-alloc-stale-node-score") {
 			return "foreign-alloc-stale-node-score"
 		}
+		if op.Kind == OpForeign && Excluded("preemption-shortfall-check") {
+			if n := w.Last.Nodes[op.Node]; n != nil {
+				avail := n.Available.Clone()
+				if f := s.Foreign[op.Key]; f != nil {
+					avail.AddIn(f.Res)
+				}
+				if avail.Sub(op.Res).HasNegative() {
+					return "preemption-shortfall-check"
+				}
+			}
+		}
 	}
 	return ""
+}
+
+// FillNodes adds an application to up to four leaf queues and fills every registered node with allocations the RM
+// reports as already running (random sizes, priorities, originator flags, some daemon set pods), then adds a few
+// starving asks. Used as the prologue of the preemption scenarios.
+func FillNodes(t *rapid.T, w *World, p *Profile) {
+	leaves := w.leafChoices()
+	n := len(leaves)
+	if n > 4 {
+		n = 4
+	}
+	for i := 0; i < n && !w.Dead; i++ {
+		op := w.genAddApp(t, p)
+		op.Queue, op.Tags, op.PhAsk, op.TGs, op.Style = leaves[(i+rapid.IntRange(0, len(leaves)-1).Draw(t, "fill-leaf"))%len(leaves)], nil, nil, nil, ""
+		w.Step(op)
+	}
+	apps := w.Shim.AcceptedApps()
+	if len(apps) == 0 {
+		return
+	}
+	for _, node := range w.Shim.LiveNodes() {
+		for i := 0; i < 8 && !w.Dead && len(w.Vios) == 0; i++ {
+			ns := w.Last.Nodes[node]
+			if ns == nil || ns.Available["memory"] < 2 || ns.Available["vcore"] < 2 {
+				break
+			}
+			sz := rapid.Int64Range(2, 4).Draw(t, "fill-size")
+			op := Op{Kind: OpReportBound, App: pick(t, "fill-app", apps), Key: w.Shim.NextID("ask"), Node: node, AllowSelf: true,
+				Res: Res{"memory": min(sz, ns.Available["memory"], ns.Available["vcore"]), "vcore": min(sz, ns.Available["memory"], ns.Available["vcore"])}, Prio: int32(rapid.IntRange(-1, 3).Draw(t, "fill-prio")),
+				Originator: pct(t, "fill-originator", 10), AgeSec: 3600}
+			if pct(t, "fill-daemonset", 10) {
+				op.ReqNode = node
+			}
+			w.Step(op)
+		}
+	}
+	for i := rapid.IntRange(1, 3).Draw(t, "fill-starving"); i > 0 && !w.Dead && len(w.Vios) == 0; i-- {
+		op := Op{Kind: OpAddAsk, App: pick(t, "starving-app", apps), Key: w.Shim.NextID("ask"), AllowSelf: true, AllowOther: true, AgeSec: 3600,
+			Res: Res{"memory": rapid.Int64Range(1, 4).Draw(t, "starving-mem"), "vcore": rapid.Int64Range(1, 4).Draw(t, "starving-cpu")}, Prio: int32(rapid.IntRange(0, 3).Draw(t, "starving-prio"))}
+		if lineRes {
+			op.Res["vcore"] = op.Res["memory"]
+		}
+		w.Step(op)
+	}
 }
